@@ -29,6 +29,7 @@ from ._store_backends import (
     CacheWarning,  # noqa
     FileSystemStoreBackend,
     StoreBackendBase,
+    StoreBackendMixin,
 )
 from .func_inspect import (
     filter_args,
@@ -729,9 +730,14 @@ class MemorizedFunc(Logger):
                 func_hash = self._hash_func()
                 if func_hash == known_hashes.get(
                     self.store_backend.location
-                ) and self.store_backend._item_exists(
-                    os.path.join(
-                        self.store_backend.location, self.func_id, "func_code.py"
+                ) and (
+                    not isinstance(self.store_backend, StoreBackendMixin)
+                    or self.store_backend._item_exists(
+                        os.path.join(
+                            self.store_backend.location,
+                            self.func_id,
+                            "func_code.py",
+                        )
                     )
                 ):
                     # (the recorded code is still there: another process may
